@@ -80,7 +80,9 @@ class TimeoutExecutor(CanCustomizeBind, Executor):
         metrics.EXEC_INPROGRESS.labels(type="timeout", executor=self._name).inc()
 
     def submit(self, *args, **kwargs):  # pylint: disable=arguments-differ
-        return self.submit_timeout(self._timeout, *args, **kwargs)
+        # (not via submit_timeout: the callable may have its own keyword
+        # argument named "timeout")
+        return self._submit_timeout(self._timeout, args, kwargs)
 
     def submit_timeout(self, timeout, fn, *args, **kwargs):
         """Like :code:`submit(fn, *args, **kwargs)`, but uses the specified
@@ -88,8 +90,12 @@ class TimeoutExecutor(CanCustomizeBind, Executor):
 
         .. versionadded:: 1.19.0
         """
+        return self._submit_timeout(timeout, (fn,) + args, kwargs)
+
+    def _submit_timeout(self, timeout, args, kwargs):
+        # args: the callable followed by its positional arguments
         with self._shutdown.ensure_alive():
-            delegate_future = self._delegate.submit(fn, *args, **kwargs)
+            delegate_future = self._delegate.submit(*args, **kwargs)
             future = MapFuture(delegate_future)
             track_future(future, type="timeout", executor=self._name)
 
